@@ -316,6 +316,6 @@ def _shard(run, n, steps, shard):
 def run(run):
     full = run.tier == 'thorough'
     k = 16
-    n = (12000 if full else 640) // k
+    n = (12000 if full else 1600) // k
     steps = 60 if full else 30
     run.shards(_shard, [(n, steps, i) for i in range(k)])
